@@ -432,7 +432,7 @@ impl Check for C20 {
     }
     fn runs(&self, tier: Tier) -> u64 {
         match tier {
-            Tier::Quick => 12_000 + crate::checks::startup::quick_configs(),
+            Tier::Quick => 25_000 + crate::checks::startup::quick_configs(),
             Tier::Thorough => 300_000 + crate::checks::startup::thorough_configs(),
         }
     }
